@@ -161,6 +161,10 @@ def run(ctx):
                       "master stays Listening for ever) - shared with C06 FM-8", floor=7)
     from rules import flow_common as _flow
     _flow.check_ageing_step(rep, prog, "TMR-8")
+    _flow.check_bmca_step_source(rep, prog, "TMR-8")
+    rep.rule("TMR-9", "a foreign master record that aged out is removed (a full list ignores new masters: the port could never "
+                      "follow a later, better master) - shared with C06 FM-10", floor=1)
+    _flow.check_record_removal(rep, prog, "TMR-9")
     _flow.check_window_interval(rep, prog, "TMR-8")
 
     # ---- TMR-3
